@@ -893,6 +893,43 @@ pub fn run_c02(o: &Opts) -> Report {
             }
         }
     }
+    // State kept across calls (see `lex_state_search`): the property has no "on a fresh thread, with the shared static"
+    // proviso, so parse_F(format_F(x)) must be x whatever the thread parsed before and wherever the format value
+    // lives.  A finding is a failure of C02 when the text IS format_F(x) for an x of the domain: decided on the cold
+    // result w (vocab_ok(w), not K5, format_F(w) = text, so x = w).  Other findings (texts outside the domain,
+    // parse_term, fold) are C08's business and only counted here.
+    {
+        let mut srng = Rng::new(o.seed ^ 0xC02_57A7E);
+        let (texts, always, warm) = state_corpus(&mut srng, if o.thorough { 120 } else { 40 });
+        let res = lex_state_search(&texts, always, if o.thorough { 200 } else { 60 }, &warm, &[0, 1, 2], &mut srng);
+        cx.rep.evaluations += res.observations as u64;
+        cx.rep.hist.0.insert("state:texts".into(), texts.len() as u64);
+        cx.rep.hist.0.insert("state:histories".into(), res.histories as u64);
+        cx.rep.hist.0.insert("state:observations".into(), res.observations as u64);
+        let fms = formats();
+        for f in res.findings {
+            let fm = &fms[f.j];
+            let v = vocab(fm.l);
+            let kw = keywords(fm.l, &v);
+            let dom = Dom { l: fm.l, v: &v, kw: &kw };
+            let in_dom = match &f.cold.parse {
+                Ok(Some(w)) => dom.vocab_ok(w) && !dom.k5(term_of(w)) && guard(|| fm.l.format_narsese(w)).as_deref() == Some(f.text.as_str()),
+                _ => false,
+            };
+            if in_dom && f.got.parse != f.cold.parse {
+                cx.fail(
+                    "state",
+                    "parse(format(x)) differs from x after an earlier parse on the same thread / with an owned format from create_format_*",
+                    format!("[{}] {:?} = format of {:?} -- history: {}", fm.name, f.text, f.cold.parse.as_ref().ok().and_then(|x| x.as_ref()), f.history),
+                    format!("{:?}", f.cold.parse),
+                    format!("{:?}", f.got.parse),
+                    None,
+                );
+            } else {
+                cx.rep.hist.add("state:dependence-outside-the-domain (C08's business)");
+            }
+        }
+    }
     let cases = std::mem::take(&mut cx.cases);
     finish(o, "C02", rep, cases)
 }
@@ -1102,6 +1139,17 @@ fn c05_parser_stream(o: &Opts, cx: &mut Ctx, rng: &mut Rng) {
             }
         ));
     }
+    // empty truth / budget brackets written out, in every position (no formatter prints them)
+    for fm in formats() {
+        let v = vocab(fm.l);
+        for (s, _, how) in empty_bracket_texts(&fm, &v) {
+            let r = cx.parse_case(&fm, &s);
+            cx.rep.hist.add(format!("{}:empty-brackets:{}", fm.name, pr_tag(&r)));
+            if r.is_err() {
+                cx.fail("empty-brackets", "lexical parser panicked", format!("[{}] {:?} ({})", fm.name, s, how), "Ok or Err".into(), "PANIC".into(), None);
+            }
+        }
+    }
     for fm in formats() {
         let v = vocab(fm.l);
         let kw = keywords(fm.l, &v);
@@ -1140,6 +1188,9 @@ pub fn run_c05(o: &Opts) -> Report {
     let mut cx = Ctx { rep: &mut rep, cases: vec![] };
     cx.table_cases();
     c05_parser_stream(o, &mut cx, &mut rng);
+    // "in bounded time": failing deeply nested inputs under a time budget (see `c05_deep_failing_stream`)
+    let mut drng = Rng::new(o.seed ^ 0xC05_DEE9);
+    c05_deep_failing_stream(o, &mut cx, &mut drng);
     let cases = std::mem::take(&mut cx.cases);
     finish(o, "C05", rep, cases)
 }
@@ -1349,4 +1400,661 @@ pub fn c09_lexical_ws(o: &Opts, mut rep: Report) -> Report {
     let shards = write_shards(&o.outdir, &format!("{}L", rep.prop), "Nv.Run.LexRun", "mismatches_lex", "lcase", "N_scope", &cases, o.shards, "").unwrap();
     rep.shards.extend(shards.into_iter().map(|(p, lo, hi)| (p, lo + offset, hi + offset)));
     rep
+}
+
+// -------------------------------------------------------------------------------------------
+// State kept by the lexical parser ACROSS calls (thread-locals, caches keyed by the address of the format or
+// by the text): used by C02, C08 and C11.
+// The reference of every observation is a COLD parse: a fresh thread that does nothing but this one parse with
+// the shared static instance.  Histories, each on a fresh thread of its own:
+//  (a) order of formats: every ordered pair / triple of formats parses first, then the text under test;
+//  (b) OWNED formats from the public `create_format_ascii/latex/han`: a slot overwritten in place, a local of one
+//      stack frame dropped and re-created, a Box overwritten in place, a Box dropped and re-allocated, a clone whose
+//      original is dropped -- results must equal those of the shared statics;
+//  (c) the SAME text parsed back to back under two different formats.
+// Observed per text: lexical parse, lexical parse_term, lexical parse + fold.
+// -------------------------------------------------------------------------------------------
+use narsese::conversion::string::impl_lexical::format_instances::{create_format_ascii, create_format_han, create_format_latex};
+
+#[derive(Clone, PartialEq, Debug)]
+pub struct LexOut {
+    pub parse: PR<LNarsese>,
+    pub term: PR<LTerm>,
+    /// lexical parse + fold into the same-named enum format, canonical text
+    pub fold: String,
+}
+
+fn lex_out(l: &LexFormat, e: &'static crate::enumgen::EFmt, s: &str) -> LexOut {
+    use narsese::conversion::inter_type::lexical_fold::TryFoldInto;
+    let parse: PR<LNarsese> = guard(|| l.parse(s).ok()).ok_or(());
+    let fold = match &parse {
+        Ok(Some(v)) => {
+            let v = v.clone();
+            match guard(move || v.try_fold_into(e).ok()) {
+                Some(Some(w)) => format!("Ok({})", crate::enumgen::canon_narsese(&w)),
+                Some(None) => "Err".into(),
+                None => "PANIC".into(),
+            }
+        }
+        Ok(None) => "Err".into(),
+        Err(()) => "PANIC".into(),
+    };
+    let term: PR<LTerm> = guard(|| l.parse_term(s).ok()).ok_or(());
+    LexOut { parse, term, fold }
+}
+
+fn create_lex(k: usize) -> LexFormat {
+    match k {
+        0 => create_format_ascii(),
+        1 => create_format_latex(),
+        _ => create_format_han(),
+    }
+}
+
+#[derive(Clone, Copy, Debug, PartialEq)]
+pub enum FmtSrc {
+    Static,
+    SlotInPlace,
+    FrameLocal,
+    BoxInPlace,
+    BoxRealloc,
+    CloneOfDropped,
+}
+pub const FMT_SRCS: [FmtSrc; 6] = [FmtSrc::Static, FmtSrc::SlotInPlace, FmtSrc::FrameLocal, FmtSrc::BoxInPlace, FmtSrc::BoxRealloc, FmtSrc::CloneOfDropped];
+
+enum Holder {
+    Empty,
+    Slot(LexFormat),
+    Boxed(Box<LexFormat>),
+}
+
+/// the same stack frame for every call: a local format created, used, dropped
+#[inline(never)]
+fn with_frame_local(k: usize, f: &mut dyn FnMut(&LexFormat)) {
+    let fmt = create_lex(k);
+    f(std::hint::black_box(&fmt));
+}
+
+impl Holder {
+    /// make format `k` the current one, the way `src` says, and run `f` with it
+    fn with(&mut self, src: FmtSrc, k: usize, f: &mut dyn FnMut(&LexFormat)) {
+        match src {
+            FmtSrc::Static => f(formats()[k].l),
+            FmtSrc::FrameLocal => with_frame_local(k, f),
+            FmtSrc::SlotInPlace => {
+                if let Holder::Slot(slot) = self {
+                    *slot = create_lex(k);
+                } else {
+                    *self = Holder::Slot(create_lex(k));
+                }
+                if let Holder::Slot(slot) = self {
+                    f(slot)
+                }
+            }
+            FmtSrc::BoxInPlace => {
+                if let Holder::Boxed(b) = self {
+                    **b = create_lex(k);
+                } else {
+                    *self = Holder::Boxed(Box::new(create_lex(k)));
+                }
+                if let Holder::Boxed(b) = self {
+                    f(b)
+                }
+            }
+            FmtSrc::BoxRealloc => {
+                *self = Holder::Empty; // dropped first: the allocator is free to hand the block out again
+                *self = Holder::Boxed(Box::new(create_lex(k)));
+                if let Holder::Boxed(b) = self {
+                    f(b)
+                }
+            }
+            FmtSrc::CloneOfDropped => {
+                *self = Holder::Empty;
+                let original = Box::new(create_lex(k));
+                let copy = Box::new((*original).clone());
+                drop(original);
+                *self = Holder::Boxed(copy);
+                if let Holder::Boxed(b) = self {
+                    f(b)
+                }
+            }
+        }
+    }
+}
+
+pub struct StateFinding {
+    /// format of the parse under test
+    pub j: usize,
+    pub text: String,
+    pub history: String,
+    pub cold: LexOut,
+    pub got: LexOut,
+}
+
+fn on_fresh_thread<T: Send + 'static>(f: impl FnOnce() -> T + Send + 'static) -> Option<T> {
+    std::thread::Builder::new().stack_size(64 << 20).spawn(f).ok()?.join().ok()
+}
+
+pub struct StateSearch {
+    pub findings: Vec<StateFinding>,
+    /// cold result per (text index, format)
+    pub cold: Vec<[LexOut; 3]>,
+    pub histories: usize,
+    pub observations: usize,
+}
+
+/// `texts`: the texts under test (the first `always` of them are used in every history, of the others a random sample of `sample`);
+/// `warm[k]`: texts of format k parsed by the earlier steps of a history; `targets`: formats of the parse under test.
+pub fn lex_state_search(texts: &[String], always: usize, sample: usize, warm: &[Vec<String>; 3], targets: &[usize], rng: &mut Rng) -> StateSearch {
+    let fms = formats();
+    let es: [&'static crate::enumgen::EFmt; 3] = [fms[0].e, fms[1].e, fms[2].e];
+    let names = ["ascii", "latex", "han"];
+    // cold references: one fresh thread per (format, text)
+    let mut cold: Vec<[LexOut; 3]> = vec![];
+    let panic_out = LexOut { parse: Err(()), term: Err(()), fold: "THREAD-DIED".into() };
+    for t in texts {
+        let mut row: Vec<LexOut> = vec![];
+        for j in 0..3 {
+            if !targets.contains(&j) {
+                row.push(panic_out.clone());
+                continue;
+            }
+            let t2 = t.clone();
+            let e = es[j];
+            row.push(on_fresh_thread(move || lex_out(formats()[j].l, e, &t2)).unwrap_or(panic_out.clone()));
+        }
+        cold.push([row[0].clone(), row[1].clone(), row[2].clone()]);
+    }
+    let mut out = StateSearch { findings: vec![], cold, histories: 0, observations: 0 };
+    let pick_texts = |rng: &mut Rng| -> Vec<usize> {
+        let mut idx: Vec<usize> = (0..always.min(texts.len())).collect();
+        if texts.len() > always {
+            let mut rest: Vec<usize> = (always..texts.len()).collect();
+            rng.shuffle(&mut rest);
+            idx.extend(rest.into_iter().take(sample));
+        }
+        idx
+    };
+    for &j in targets {
+        let others: Vec<usize> = (0..3).filter(|k| *k != j).collect();
+        let (a, b) = (others[0], others[1]);
+        // (a) + (b): what parses BEFORE the format under test
+        let seqs: Vec<Vec<usize>> = vec![vec![a], vec![b], vec![a, b], vec![b, a], vec![j, a], vec![j, b], vec![a, j, b]];
+        for seq in &seqs {
+            for src in FMT_SRCS {
+                let idx = pick_texts(rng);
+                let my_texts: Vec<String> = idx.iter().map(|i| texts[*i].clone()).collect();
+                let (seq2, warm2) = (seq.clone(), warm.clone());
+                let got = on_fresh_thread(move || {
+                    let mut h = Holder::Empty;
+                    for &k in &seq2 {
+                        h.with(src, k, &mut |l| {
+                            for w in &warm2[k] {
+                                let _ = lex_out(l, es[k], w);
+                            }
+                        });
+                    }
+                    let mut res: Vec<LexOut> = vec![];
+                    h.with(src, j, &mut |l| {
+                        for t in &my_texts {
+                            res.push(lex_out(l, es[j], t));
+                        }
+                    });
+                    res
+                });
+                out.histories += 1;
+                let Some(got) = got else { continue };
+                for (n, i) in idx.iter().enumerate() {
+                    out.observations += 1;
+                    if got[n] != out.cold[*i][j] {
+                        let history = format!(
+                            "fresh thread; formats from {:?}; first parse with [{}] the texts {:?}, then [{}] parses {:?}",
+                            src,
+                            seq.iter().map(|k| names[*k]).collect::<Vec<_>>().join(", then "),
+                            seq.iter().map(|k| warm[*k].clone()).collect::<Vec<_>>(),
+                            names[j],
+                            texts[*i]
+                        );
+                        out.findings.push(StateFinding { j, text: texts[*i].clone(), history, cold: out.cold[*i][j].clone(), got: got[n].clone() });
+                    }
+                }
+            }
+        }
+        // (c) the same text under another format directly before
+        for &i0 in &others {
+            for src in [FmtSrc::Static, FmtSrc::SlotInPlace, FmtSrc::BoxRealloc] {
+                let idx = pick_texts(rng);
+                let my_texts: Vec<String> = idx.iter().map(|i| texts[*i].clone()).collect();
+                let got = on_fresh_thread(move || {
+                    let mut h = Holder::Empty;
+                    let mut res: Vec<LexOut> = vec![];
+                    for t in &my_texts {
+                        h.with(src, i0, &mut |l| {
+                            let _ = lex_out(l, es[i0], t);
+                        });
+                        h.with(src, j, &mut |l| res.push(lex_out(l, es[j], t)));
+                    }
+                    res
+                });
+                out.histories += 1;
+                let Some(got) = got else { continue };
+                for (n, i) in idx.iter().enumerate() {
+                    out.observations += 1;
+                    if got[n] != out.cold[*i][j] {
+                        let history = format!("fresh thread; formats from {:?}; ... [{}] parses {:?}, directly afterwards [{}] parses the same text {:?}", src, names[i0], texts[*i], names[j], texts[*i]);
+                        out.findings.push(StateFinding { j, text: texts[*i].clone(), history, cold: out.cold[*i][j].clone(), got: got[n].clone() });
+                    }
+                }
+            }
+        }
+    }
+    out
+}
+
+/// texts for the state search: per format, the formatter's output for a systematic tour of the vocabulary (every copula /
+/// connecter / set bracket with atom operands of every prefix, sentences and tasks with every stamp form) and random
+/// domain values; plus texts that are valid in SEVERAL formats with different structures: bare words, every format's
+/// prefixes / punctuations glued to a name (`_x`, `任一x`, `_1?`, `#a.`).
+/// Returns (texts, number of systematic ones at the front, warm-up texts per format).
+pub fn state_corpus(rng: &mut Rng, n_random: usize) -> (Vec<String>, usize, [Vec<String>; 3]) {
+    let mut systematic: Vec<String> = vec![];
+    let mut random: Vec<String> = vec![];
+    let mut warm: [Vec<String>; 3] = [vec![], vec![], vec![]];
+    let mut shared: Vec<String> = vec![];
+    let all = formats();
+    for fm in &all {
+        let v = vocab(fm.l);
+        let kw = keywords(fm.l, &v);
+        let (a, b) = if fm.idx == 2 { ("知更鸟", "鸟") } else { ("robin", "bird") };
+        let st = |c: &str, p: &str| mk_statement(c, mk_atom(p, a), mk_atom("", b));
+        let fmt = |x: &LNarsese| guard(|| fm.l.format_narsese(x));
+        for (ci, c) in v.copulas.iter().enumerate() {
+            for p in std::iter::once(String::new()).chain(v.prefixes.iter().cloned()).take(if ci < 2 { 99 } else { 2 }) {
+                systematic.extend(fmt(&LNarsese::Term(st(c, &p))));
+            }
+            systematic.extend(fmt(&LNarsese::Sentence(mk_sentence(st(c, ""), v.punctuations[ci % v.punctuations.len()].clone(), "", vec!["1".into(), "0.9".into()]))));
+            systematic.extend(fmt(&LNarsese::Term(mk_statement(c.clone(), st(c, ""), st(c, "")))));
+        }
+        for c in &v.connecters {
+            systematic.extend(fmt(&LNarsese::Term(mk_compound(c.clone(), vec![mk_atom("", a), st(&v.copulas[0], ""), mk_atom("", b)]))));
+        }
+        for (l, r) in &v.set_brackets {
+            systematic.extend(fmt(&LNarsese::Term(mk_set(l.clone(), vec![mk_atom("", a), st(&v.copulas[0], "")], r.clone()))));
+        }
+        for (sa, sb) in &v.stamp_brackets {
+            let stamp = if sa.is_empty() { format!("{}{}", sa, sb) } else { format!("{}1{}", sa, sb) };
+            systematic.extend(fmt(&LNarsese::Task(LTask { budget: vec!["0.5".into()], sentence: mk_sentence(st(&v.copulas[0], ""), v.punctuations[0].clone(), stamp, vec!["1".into()]) })));
+        }
+        // what the earlier steps of a history parse: an atom next to a copula, a compound, a sentence
+        warm[fm.idx].extend(fmt(&LNarsese::Sentence(mk_sentence(st(&v.copulas[0], ""), v.punctuations[0].clone(), "", vec!["1".into(), "0.9".into()]))));
+        warm[fm.idx].extend(fmt(&LNarsese::Term(mk_compound(v.connecters[0].clone(), vec![mk_atom(v.prefixes[0].clone(), a), mk_atom("", b)]))));
+        warm[fm.idx].extend(fmt(&LNarsese::Term(mk_atom("", a))));
+        let g = LexGen { fm, v: &v, kw: &kw, max_depth: 3, strict_names: true, wild: false, style_override: None };
+        for i in 0..n_random {
+            random.extend(fmt(&g.narsese(rng, i % 3, if i < 8 { Some(i % 4) } else { None })).filter(|s| s.chars().count() <= 120));
+        }
+        // several formats, different structures
+        for name in ["x", "1", "a1", "甲"] {
+            shared.push(name.to_string());
+            for p in &v.prefixes {
+                shared.push(format!("{}{}", p, name));
+                for q in v.punctuations.iter().take(2) {
+                    shared.push(format!("{}{}{}", p, name, q));
+                }
+            }
+            for q in &v.punctuations {
+                shared.push(format!("{}{}", name, q));
+            }
+        }
+    }
+    shared.sort();
+    shared.dedup();
+    systematic.extend(shared);
+    let always = systematic.len();
+    systematic.extend(random);
+    (systematic, always, warm)
+}
+
+/// C08's lexical half: the result of a lexical parse (and parse_term, and parse + fold) depends only on format and text
+pub fn c08_lexical_state(o: &Opts, rep: &mut Report) {
+    let mut rng = Rng::new(o.seed ^ 0xC08_57A7E);
+    let (texts, always, warm) = state_corpus(&mut rng, if o.thorough { 120 } else { 40 });
+    let res = lex_state_search(&texts, always, if o.thorough { 200 } else { 60 }, &warm, &[0, 1, 2], &mut rng);
+    rep.evaluations += res.observations as u64;
+    rep.hist.0.insert("lexical-state:texts".into(), texts.len() as u64);
+    rep.hist.0.insert("lexical-state:histories".into(), res.histories as u64);
+    rep.hist.0.insert("lexical-state:observations".into(), res.observations as u64);
+    for f in res.findings {
+        rep.fail(Failure {
+            stream: "lexical-state".into(),
+            what: "lexical parser: the result depends on what the thread parsed before / on where the format value lives, not only on format and text".into(),
+            input: format!("[{}] {:?} -- history: {}", ["ascii", "latex", "han"][f.j], f.text, f.history),
+            expected: format!("{:?} (the same parse alone on a fresh thread with the shared static)", f.cold),
+            got: format!("{:?}", f.got),
+            known: None,
+        });
+    }
+}
+
+// -------------------------------------------------------------------------------------------
+// C05, "in bounded time": FAILING deeply nested inputs under a time budget.
+// For every format, depth in {8,16,24,32,40,64} and shape (left- / right-nested statements, compounds, sets, and the
+// three alternating) the token sequence of a valid nested term is truncated at every token position near the innermost
+// level, and written in full with one wrong token near the innermost level (a closing bracket of another kind, a copula,
+// a punctuation, a doubled token, a missing token).  Only texts of at most 512 characters are used (the property's bound).
+// parse and parse_term run on a helper thread; the harness waits `DEEP_BUDGET` per input.  A helper that does not answer is
+// abandoned (it cannot be stopped; the process ends when main returns) and a new helper takes the remaining inputs; the
+// stream stops after `DEEP_MAX_TIMEOUTS` timeouts so that abandoned helpers cannot pile up.
+// -------------------------------------------------------------------------------------------
+const DEEP_BUDGET: std::time::Duration = std::time::Duration::from_secs(5);
+const DEEP_MAX_TIMEOUTS: usize = 2;
+
+/// tokens of a nested term; `shape`: 0 statement, 1 compound, 2 set, 3 alternating; `left`: the nested operand comes first
+fn deep_tokens(l: &LexFormat, v: &Vocab, depth: usize, shape: usize, left: bool, copula: &str, connecter: &str, out: &mut Vec<String>, inner: &mut usize) {
+    if depth == 0 {
+        *inner = out.len();
+        out.push("A".into());
+        return;
+    }
+    let kind = if shape == 3 { depth % 3 } else { shape };
+    let (open, close, head, sep): (String, String, Option<String>, String) = match kind {
+        0 => (l.statement.brackets.0.clone(), l.statement.brackets.1.clone(), None, copula.to_string()),
+        1 => (l.compound.brackets.0.clone(), l.compound.brackets.1.clone(), Some(connecter.to_string()), l.compound.separator.clone()),
+        _ => (v.set_brackets[depth % v.set_brackets.len()].0.clone(), v.set_brackets[depth % v.set_brackets.len()].1.clone(), None, l.compound.separator.clone()),
+    };
+    out.push(open);
+    if let Some(h) = head {
+        out.push(h);
+        out.push(sep.clone());
+    }
+    if left {
+        deep_tokens(l, v, depth - 1, shape, left, copula, connecter, out, inner);
+        out.push(sep);
+        out.push("B".into());
+    } else {
+        out.push("B".into());
+        out.push(sep);
+        deep_tokens(l, v, depth - 1, shape, left, copula, connecter, out, inner);
+    }
+    out.push(close);
+}
+
+fn deep_failing_inputs(fm: &Fm, v: &Vocab, rng: &mut Rng, thorough: bool) -> Vec<(String, String)> {
+    let l = fm.l;
+    let mut res: Vec<(String, String)> = vec![];
+    let shortest = |xs: &Vec<String>| xs.iter().filter(|s| !s.is_empty()).min_by_key(|s| s.chars().count()).cloned().unwrap_or_default();
+    for depth in [8usize, 16, 24, 32, 40, 64] {
+        for shape in 0..4 {
+            for left in [true, false] {
+                // the shortest keywords (the 512-character bound), and randomly chosen ones
+                for pick in 0..(if thorough { 2 } else { 1 }) {
+                    let copula = if pick == 0 { shortest(&v.copulas) } else { rng.pick(&v.copulas).clone() };
+                    let connecter = if pick == 0 { shortest(&v.connecters) } else { rng.pick(&v.connecters).clone() };
+                    let mut toks: Vec<String> = vec![];
+                    let mut inner = 0usize;
+                    deep_tokens(l, v, depth, shape, left, &copula, &connecter, &mut toks, &mut inner);
+                    let what = format!("depth {} {} {}", depth, ["statements", "compounds", "sets", "statement/compound/set alternating"][shape], if left { "nested on the left" } else { "nested on the right" });
+                    let mut add = |ts: &[String], how: String| {
+                        let s: String = ts.concat();
+                        if s.chars().count() <= 512 {
+                            res.push((s, format!("{}, {}", what, how)));
+                        }
+                    };
+                    // truncated after k tokens, k around the innermost atom (and, in the thorough tier, everywhere)
+                    let lo = inner.saturating_sub(4);
+                    let hi = (inner + 8).min(toks.len());
+                    for k in 0..=toks.len() {
+                        if (k >= lo && k <= hi) || (thorough && k % 5 == 0) || k + 1 == toks.len() {
+                            add(&toks[..k], format!("truncated after {} of {} tokens", k, toks.len()));
+                        }
+                    }
+                    // one wrong token near the innermost level, the rest of the text complete
+                    let wrong: Vec<String> = vec![
+                        l.statement.brackets.1.clone(),
+                        l.compound.brackets.1.clone(),
+                        v.set_brackets[0].1.clone(),
+                        rng.pick(&v.copulas).clone(),
+                        rng.pick(&v.punctuations).clone(),
+                        l.compound.separator.clone(),
+                        String::new(),
+                    ];
+                    for k in inner.saturating_sub(2)..(inner + 5).min(toks.len()) {
+                        for (wi, w) in wrong.iter().enumerate() {
+                            if (wi + k + pick) % 2 == 0 || *w == toks[k] {
+                                continue;
+                            }
+                            let mut ts = toks.clone();
+                            ts[k] = w.clone();
+                            add(&ts, format!("token {} ({:?}) replaced by {:?}", k, toks[k], w));
+                        }
+                        let mut ts = toks.clone();
+                        ts.insert(k, toks[k].clone());
+                        add(&ts, format!("token {} ({:?}) doubled", k, toks[k]));
+                    }
+                }
+            }
+        }
+    }
+    res
+}
+
+fn c05_deep_failing_stream(o: &Opts, cx: &mut Ctx, rng: &mut Rng) {
+    use std::sync::mpsc;
+    let mut timeouts = 0usize;
+    'formats: for fm in formats() {
+        let v = vocab(fm.l);
+        let inputs = deep_failing_inputs(&fm, &v, rng, o.thorough);
+        cx.rep.hist.0.insert(format!("{}:deep-failing:inputs", fm.name), inputs.len() as u64);
+        let mut next = 0usize;
+        while next < inputs.len() {
+            // a helper thread for inputs[next..]
+            let (tx, rx) = mpsc::channel::<(usize, PR<LNarsese>, PR<LTerm>, u128)>();
+            let batch: Vec<String> = inputs[next..].iter().map(|x| x.0.clone()).collect();
+            let l = fm.l;
+            let base = next;
+            let spawned = std::thread::Builder::new().stack_size(256 << 20).spawn(move || {
+                for (i, s) in batch.iter().enumerate() {
+                    let t0 = std::time::Instant::now();
+                    let r = real_lex_parse(l, s);
+                    let t = real_lex_parse_term(l, s);
+                    if tx.send((base + i, r, t, t0.elapsed().as_micros())).is_err() {
+                        return;
+                    }
+                }
+            });
+            if spawned.is_err() {
+                cx.rep.hist.add("deep-failing:could-not-spawn-helper");
+                break 'formats;
+            }
+            loop {
+                if next >= inputs.len() {
+                    break;
+                }
+                match rx.recv_timeout(DEEP_BUDGET) {
+                    Ok((i, r, t, micros)) => {
+                        let (s, how) = &inputs[i];
+                        cx.rep.evaluations += 2;
+                        cx.rep.note_distinct(&format!("deep{}|{}", fm.idx, s));
+                        cx.rep.hist.add(format!("{}:deep-failing:parse:{}", fm.name, pr_tag(&r)));
+                        cx.rep.hist.add(format!("{}:deep-failing:time:{}", fm.name, match micros { 0..=999 => "<1ms", 1000..=99_999 => "<100ms", 100_000..=999_999 => "<1s", _ => ">=1s" }));
+                        if r.is_err() || t.is_err() {
+                            cx.fail("deep-failing", "lexical parser panicked", format!("[{}] {:?} ({})", fm.name, s, how), "Ok or Err".into(), "PANIC".into(), None);
+                        }
+                        // the model on a part of them (a quarter of the shallower ones, one in forty of the others)
+                        if (s.chars().count() <= 100 && i % 4 == 0) || i % 40 == 0 {
+                            cx.push(format!("LParseC {} {} {}", fm.idx, cstr(s), clres(&r, clnarsese)), format!("lexical parse[{}] {:?} ({})", fm.name, s, how));
+                            cx.rep.evaluations -= 1;
+                            if i % 2 == 0 {
+                                cx.push(format!("LParseTermC {} {} {}", fm.idx, cstr(s), clres(&t, clterm)), format!("lexical parse_term[{}] {:?} ({})", fm.name, s, how));
+                                cx.rep.evaluations -= 1;
+                            }
+                        }
+                        next = i + 1;
+                    }
+                    Err(mpsc::RecvTimeoutError::Disconnected) => {
+                        // the helper died (a panic that `guard` did not catch): reported as such, new helper for the rest
+                        let (s, how) = &inputs[next];
+                        cx.fail("deep-failing", "the helper thread died while parsing", format!("[{}] {:?} ({})", fm.name, s, how), "Ok or Err".into(), "thread died".into(), None);
+                        next += 1;
+                        break;
+                    }
+                    Err(mpsc::RecvTimeoutError::Timeout) => {
+                        // the helper is still busy with inputs[next]: abandon it
+                        let (s, how) = &inputs[next];
+                        cx.rep.evaluations += 1;
+                        cx.fail(
+                            "deep-failing",
+                            "lexical parse / parse_term of a text within the property's bounds (at most 512 characters, nesting at most 64) did not return within 5 s",
+                            format!("[{}] {:?} ({}; {} characters)", fm.name, s, how, s.chars().count()),
+                            "Ok or Err in bounded time (the unchanged library: well under 100 ms)".into(),
+                            "no answer after 5 s".into(),
+                            None,
+                        );
+                        timeouts += 1;
+                        next += 1;
+                        if timeouts >= DEEP_MAX_TIMEOUTS {
+                            cx.rep.hist.add("deep-failing:stopped-after-timeouts");
+                            break 'formats;
+                        }
+                        break; // new helper for the rest
+                    }
+                }
+            }
+        }
+    }
+}
+
+// -------------------------------------------------------------------------------------------
+// EMPTY bracket pairs (truth, budget) written out, in every position and format.  Neither formatter prints an empty
+// truth (and the lexical one prints no empty budget), so no format -> parse stream meets these texts; the parsers accept
+// them (`A. %%`, `$$ A. %%`, `\langle{}\rangle{}`, `真值`, `预算`).
+// Returns (text, kind the items present demand when the text is a canonical item sequence, description).
+// -------------------------------------------------------------------------------------------
+pub fn empty_bracket_texts(fm: &Fm, v: &Vocab) -> Vec<(String, Option<usize>, String)> {
+    let l = fm.l;
+    let sp = l.space.format_items.clone();
+    let (a, b) = if fm.idx == 2 { ("甲", "乙") } else { ("A", "B") };
+    let terms: Vec<LTerm> = vec![
+        mk_atom("", a),
+        mk_atom(v.prefixes[0].clone(), a),
+        mk_statement(v.copulas[0].clone(), mk_atom("", a), mk_atom("", b)),
+        mk_compound(v.connecters[0].clone(), vec![mk_atom("", a), mk_atom("", b)]),
+        mk_set(v.set_brackets[0].0.clone(), vec![mk_atom("", a)], v.set_brackets[0].1.clone()),
+    ];
+    let tb = l.sentence.truth_brackets.clone();
+    let bb = l.task.budget_brackets.clone();
+    let empty_truth = format!("{}{}", tb.0, tb.1);
+    let empty_budget = format!("{}{}", bb.0, bb.1);
+    let truths: Vec<(Option<String>, &str)> = vec![(None, "no truth"), (Some(empty_truth.clone()), "EMPTY truth"), (Some(format!("{}1{}0.9{}", tb.0, l.sentence.truth_separator, tb.1)), "truth")];
+    let budgets: Vec<(Option<String>, &str)> = vec![(None, "no budget"), (Some(empty_budget.clone()), "EMPTY budget"), (Some(format!("{}0.5{}", bb.0, bb.1)), "budget")];
+    let mut stamps: Vec<Option<String>> = vec![None];
+    for (sa, sb) in v.stamp_brackets.iter() {
+        stamps.push(Some(if sa.is_empty() { format!("{}{}", sa, sb) } else { format!("{}1{}", sa, sb) }));
+    }
+    let mut puncts: Vec<Option<String>> = vec![None];
+    puncts.extend(v.punctuations.iter().cloned().map(Some));
+    let mut out: Vec<(String, Option<usize>, String)> = vec![];
+    for (ti, t) in terms.iter().enumerate() {
+        let Some(ts) = guard(|| l.format_term(t)) else { continue };
+        for (bi, (bud, bname)) in budgets.iter().enumerate() {
+            for (pi, p) in puncts.iter().enumerate() {
+                for (si, st) in stamps.iter().enumerate() {
+                    for (ui, (tr, tname)) in truths.iter().enumerate() {
+                        // every combination with an empty pair for the first term; a rotating part for the others
+                        let has_empty = bi == 1 || ui == 1;
+                        if !has_empty || (ti != 0 && (ti + bi + pi + si + ui) % 3 != 0) {
+                            continue;
+                        }
+                        let mut items: Vec<String> = vec![];
+                        items.extend(bud.clone());
+                        items.push(format!("{}{}", ts, p.clone().unwrap_or_default()));
+                        items.extend(st.clone());
+                        items.extend(tr.clone());
+                        let want = match (bud, p) {
+                            (Some(_), Some(_)) => 2,
+                            (None, Some(_)) => 1,
+                            _ => 0,
+                        };
+                        let descr = format!("{}, term, {}, {}, {}", bname, if p.is_some() { "punctuation" } else { "no punctuation" }, if st.is_some() { "stamp" } else { "no stamp" }, tname);
+                        out.push((items.join(&sp), Some(want), descr.clone()));
+                        if (bi + pi + si + ui) % 2 == 0 {
+                            out.push((items.concat(), Some(want), format!("{} (no blanks)", descr)));
+                        }
+                    }
+                }
+            }
+        }
+        // empty pairs where they do not belong (no classification demanded: model vs implementation, and both parsers alike)
+        let p0 = v.punctuations[0].clone();
+        for e in [&empty_truth, &empty_budget] {
+            out.push((format!("{}{}{}{}", e, sp, ts, p0), None, "empty pair before the term".into()));
+            out.push((format!("{}{}{}{}", ts, sp, e, p0), None, "empty pair between term and punctuation".into()));
+            out.push((format!("{}{}{}{}{}", ts, p0, sp, e, e), None, "empty pair twice at the end".into()));
+            out.push((format!("{}{}{}", ts, sp, e), None, "term and empty pair".into()));
+            out.push((e.to_string(), None, "the empty pair alone".into()));
+            out.push((format!("{}{}", e, p0), None, "the empty pair and a punctuation".into()));
+        }
+        out.push((format!("{}{}{}{}{}{}", empty_budget, sp, empty_budget, sp, ts, p0), None, "empty budget twice".into()));
+        out.push((format!("{}{}{}{}{}{}", ts, p0, sp, empty_truth, sp, empty_budget), None, "empty budget after the empty truth".into()));
+    }
+    out
+}
+
+/// C15: the classification by the items present, in both parsers, on texts with empty bracket pairs written out; the
+/// lexical results are compared with the lexical model (cases appended to `lcases`)
+pub fn c15_empty_brackets(rep: &mut Report, lcases: &mut Vec<String>, ldescr: &mut Vec<String>) {
+    let kinds = ["term", "sentence", "task"];
+    for fm in formats() {
+        let v = vocab(fm.l);
+        for (s, want, descr) in empty_bracket_texts(&fm, &v) {
+            let lr = real_lex_parse(fm.l, &s);
+            let er = crate::enumprops::real_parse(fm.e, &s);
+            rep.evaluations += 2;
+            lcases.push(format!("LParseC {} {} {}", fm.idx, cstr(&s), clres(&lr, clnarsese)));
+            ldescr.push(format!("lexical parse[{}] {:?} ({})", fm.name, s, descr));
+            let lk = match &lr {
+                Ok(Some(x)) => Some(match x {
+                    LNarsese::Term(_) => 0,
+                    LNarsese::Sentence(_) => 1,
+                    LNarsese::Task(_) => 2,
+                }),
+                _ => None,
+            };
+            let ek = match &er {
+                Ok(Some(x)) => Some(crate::enumgen::kind_of(x)),
+                _ => None,
+            };
+            rep.hist.add(format!("{}:empty-brackets:{}:lexical={}:enum={}", fm.name, if want.is_some() { "canonical" } else { "misplaced" }, lk.map(|k| kinds[k]).unwrap_or(pr_tag(&lr)), ek.map(|k| kinds[k]).unwrap_or(pr_tag(&er))));
+            let mut fail = |what: &str, expected: String, got: String| {
+                rep.fail(Failure { stream: "empty-brackets".into(), what: what.into(), input: format!("[{}] {:?} ({})", fm.name, s, descr), expected, got, known: None });
+            };
+            if lr.is_err() || er.is_err() {
+                fail("a parser panicked", "Ok or Err".into(), "PANIC".into());
+                continue;
+            }
+            if let Some(w) = want {
+                // a canonical item sequence: the kind is decided by the items present, in both parsers
+                if let Some(k) = lk {
+                    if k != w {
+                        fail("lexical parser: wrong kind for the items present (an empty truth / budget is still a truth / budget)", kinds[w].into(), kinds[k].into());
+                    }
+                }
+                if let Some(k) = ek {
+                    if k != w {
+                        fail("enum parser: wrong kind for the items present (an empty truth / budget is still a truth / budget)", kinds[w].into(), kinds[k].into());
+                    }
+                }
+            }
+            // "identically in both parsers" is demanded of canonical item sequences only (the property quantifies over what the
+            // formatters print: budget, term + punctuation, stamp, truth in this order).  On the MISPLACED texts the two parsers
+            // differ by design on the unchanged library -- the enum parser collects items in any order (`A@ %% $$` is a task,
+            // `A $$@` is a task), the lexical parser takes the budget from the front and truth / stamp / punctuation from the
+            // back (term resp. sentence) -- so these are correspondence cases (lexical model) and histogram entries only.
+            if let (Some(k1), Some(k2), Some(_)) = (lk, ek, want) {
+                if k1 != k2 {
+                    fail("enum and lexical parser classify the same text differently", format!("enum: {}", kinds[k2]), format!("lexical: {}", kinds[k1]));
+                }
+            }
+        }
+    }
 }
